@@ -7,3 +7,4 @@ open PgmVerif
 #print axioms PgmVerif.C06_bayes_closed_form
 #print axioms PgmVerif.C06_fitted_valid
 #print axioms PgmVerif.C06_mle_weight_scale
+#print axioms PgmVerif.C06_bayes_zero_prior
